@@ -37,8 +37,11 @@ def compile_beh(beh):
     """behaviour -> (driver lines, expectations per output line)"""
     lines, exp = [], []
     pg = [0x101]
+    across = any(st["act"]["a"] in ("TxHeader", "TxEnd") for st in beh)
 
     def probe(st):
+        if across:          # the page of magazine 2 that runs across the calls is the acquisition probe of this behaviour
+            return
         lines.append("T %x" % pg[0])
         exp.append(dict(calls=[list(x) for x in st["ttxh"]], em=mbits(st["em"]), n=st["n"], cached=1 if st["em"]["ttx"] else 0))
         pg[0] += 1
@@ -52,6 +55,14 @@ def compile_beh(beh):
             lines.append("O %s %d %d %d" % ("reg" if a["a"] == "Register" else "add", a["fn"], a["ud"], mbits(a["mask"])))
             exp.append(dict(calls=[], em=mbits(st["em"]), n=st["n"]))
             probe(st)
+            i += 1
+        elif a["a"] == "TxHeader":
+            lines.append("H 234")
+            exp.append(dict(calls=[], em=mbits(st["em"]), n=st["n"]))
+            i += 1
+        elif a["a"] == "TxEnd":
+            lines.append("E 234")
+            exp.append(dict(calls=[list(x) for x in st["ttxh"]] if a["stored"] else [], em=mbits(st["em"]), n=st["n"], cached=1 if a["stored"] else 0))
             i += 1
         elif a["a"] == "Raise":
             calls, k = [], 0
@@ -122,13 +133,16 @@ def run(ctx):
                        "non-trivial = at least one registration call is made from inside a running callback")
     ctx.assumptions += ["callbacks do not raise events themselves (vbi_send_event is not re-entered from a handler)"]
     drv = build.build_driver("drv_events")
-    for cfg, to in ([("MC_TtxEvents_q", 600), ("MC_TtxEvents_live", 600)] if quick else [("MC_TtxEvents_t", 1500), ("MC_TtxEvents_live", 900)]):
+    # MC_TtxEvents_acq: a page transmission running across registration calls (AcquireExact: stored iff requested without a gap)
+    for cfg, to in ([("MC_TtxEvents_q", 600), ("MC_TtxEvents_live", 600), ("MC_TtxEvents_acq", 600)] if quick else
+                    [("MC_TtxEvents_t", 1500), ("MC_TtxEvents_live", 900), ("MC_TtxEvents_acq", 900)]):
         r = tlc.run("MC_TtxEvents", cfg, timeout=to, coverage=not quick, heap="16g")
         ctx.add_mc(r, cfg)
         if r.violation:
             ctx.violate("mc", "mc:%s:%s" % (r.violation["kind"], r.violation["name"]), r.violation["text"][:3000])
-    for cfg in (["Gen_TtxEvents_q"] if quick else ["Gen_TtxEvents_q", "Gen_TtxEvents_t"]):
-        g = tlc.run("Gen_TtxEvents", cfg, timeout=1500, collect_tr=True, heap="12g")
+    for cfg in (["Gen_TtxEvents_q", "Gen_TtxEvents_acq"] if quick else ["Gen_TtxEvents_q", "Gen_TtxEvents_t", "Gen_TtxEvents_acq"]):
+        g = tlc.run("Gen_TtxEvents", cfg, timeout=1500, collect_tr=True, heap="12g",
+                    sample_tr=(8, ctx.seed) if (quick and cfg.endswith("_acq")) else None)
         if g.violation:
             raise tlc.ToolFailure("GEN run reported " + str(g.violation))
         ctx.add_mc(g, "GEN " + cfg)
